@@ -226,10 +226,19 @@ def case_world(c):
 
 def case_freq(c):
     p = build(c["spec"])
+    wlist = None
+    if c.get("weights2") is not None:
+        # the caller keeps the weights list it passed and edits it IN PLACE half-way through
+        a = c["spec"]["args"]
+        wlist = list(a["weights"])
+        p = iso.PChoice(list(a["values"]), wlist)
     p.seed(c["seed"])
     h = {}
     n = 0
-    for _ in range(c["n"]):
+    for i in range(c["n"]):
+        if wlist is not None and i == c["n"] // 2:
+            wlist[:] = list(c["weights2"])
+            h1, h = h, {}
         try:
             v = next(p)
         except StopIteration:
@@ -237,6 +246,8 @@ def case_freq(c):
         key = json.dumps(enc(v if not (isinstance(v, list) and c.get("first")) else v[0]), sort_keys=True)
         h[key] = h.get(key, 0) + 1
         n += 1
+    if wlist is not None:
+        return {"hist": h, "n": n - c["n"] // 2, "hist_before": h1}
     return {"hist": h, "n": n}
 
 
